@@ -900,17 +900,30 @@ Definition goodc0 (v : av) : Prop :=
 
 (* floats and doubles: finite, and not the negative zero (a run of zeroes of
    both signs is compressed to one of them: finding signed-zero-run) *)
-Definition goodfl (v : av) : Prop :=
+Definition zchoice (zf zd : Z) : Prop := (zf = 0 \/ zf = 2 ^ 31) /\ (zd = 0 \/ zd = 2 ^ 63).
+Definition goodfl (zf zd : Z) (v : av) : Prop :=
   match v with
-  | VFl b => 0 <= b < 2 ^ 32 /\ f32_finite b = true /\ b <> 2 ^ 31
-  | VD b => 0 <= b < 2 ^ 64 /\ f64_finite b = true /\ b <> 2 ^ 63
+  | VFl b => 0 <= b < 2 ^ 32 /\ f32_finite b = true /\ b <> zf
+  | VD b => 0 <= b < 2 ^ 64 /\ f64_finite b = true /\ b <> zd
   | _ => False
   end.
 
 (* the values of the list-level theorems; floats and doubles only with the
    lossless option (the hexadecimal value in parentheses) *)
-Definition goodc (o : popts) (v : av) : Prop :=
-  goodc0 v \/ (lossless o = true /\ goodfl v).
+Definition goodc (o : popts) (zf zd : Z) (v : av) : Prop :=
+  goodc0 v \/ (lossless o = true /\ goodfl zf zd v).
+
+(* the same with the condition on the zeroes at list level (nozmix), as the
+   classifier of the check states it *)
+Definition goodfin (v : av) : Prop :=
+  match v with
+  | VFl b => 0 <= b < 2 ^ 32 /\ f32_finite b = true
+  | VD b => 0 <= b < 2 ^ 64 /\ f64_finite b = true
+  | _ => False
+  end.
+Definition goodv (o : popts) (v : av) : Prop := goodc0 v \/ (lossless o = true /\ goodfin v).
+Definition nozmix (vs : list av) : Prop :=
+  (~ In (VFl 0) vs \/ ~ In (VFl (2 ^ 31)) vs) /\ (~ In (VD 0) vs \/ ~ In (VD (2 ^ 63)) vs).
 
 Lemma goodc0_good v : goodc0 v -> good_val v.
 Proof. destruct v; cbn; unfold small_k, good_k, good_char; try tauto; lia. Qed.
@@ -924,7 +937,7 @@ Proof.
   unfold f64_finite, fl_isnan. change (2 ^ 11 - 1) with 2047. intros H. apply negb_true_iff in H. now rewrite H.
 Qed.
 
-Lemma goodc_facts o v : goodc o v -> scalar v /\ inrv v /\ exact v.
+Lemma goodc_facts o zf zd v : goodc o zf zd v -> scalar v /\ inrv zf zd v /\ exact v.
 Proof.
   intros [H|[_ H]].
   - destruct v; cbn in *; unfold small_k, good_k in *; try tauto; lia.
@@ -933,7 +946,7 @@ Proof.
     + split; [exact I|]. split; [|exact I]. split; [exact Hb|]. split; [now apply finite_notnan32|exact Hz].
     + split; [exact I|]. split; [|exact I]. split; [exact Hb|]. split; [now apply finite_notnan64|exact Hz].
 Qed.
-Lemma goodc_mk o k z : goodc o (mk k z) -> small_k k z.
+Lemma goodc_mk o zf zd k z : goodc o zf zd (mk k z) -> small_k k z.
 Proof. intros [H|[_ H]]; destruct k; cbn in H; tauto. Qed.
 
 Lemma pav_mk o k z cols f :
@@ -1088,8 +1101,8 @@ Proof.
   - inversion Hp; subst. repeat constructor; try lia; apply hexdig_ne46.
 Qed.
 
-Lemma goodc_tok o v cols t w c :
-  goodc o v -> print_scalar o v cols = Some (t, w, c) ->
+Lemma goodc_tok o zf zd v cols t w c :
+  goodc o zf zd v -> print_scalar o v cols = Some (t, w, c) ->
   tokof dec2f dec2d v t /\ sdots t /\ w = len t.
 Proof.
   intros [Hg|[Hl Hg]] Hp.
@@ -1121,6 +1134,8 @@ Section PrintLoop.
 Variables dec2f dec2d : list Z -> Z.
 Variable o : popts.
 Hypothesis Hon : compress o = true.
+Variables zf zd : Z.
+Hypothesis Hz : zchoice zf zd.
 Notation item_ok := (item_ok dec2f dec2d).
 
 Definition iter_text (p : option av) (its : list item) (t : list Z) : Prop :=
@@ -1149,7 +1164,7 @@ Proof.
 Qed.
 
 Lemma print_iter a0 rest size prev t tmp cols cols1 bb cv :
-  Forall (goodc o) (a0 :: rest) -> Z.of_nat (length (a0 :: rest)) < 2 ^ 31 ->
+  Forall (goodc o zf zd) (a0 :: rest) -> Z.of_nat (length (a0 :: rest)) < 2 ^ 31 ->
   (forall p, prev = Some p -> scalar p) ->
   convert_to_range o (a0 :: rest) size = cv -> cv <> CUnmod ->
   print_arg_val o (match cv with CYes c _ => c | _ => a0 :: rest end) cols prev = Some (t, tmp, cols1, bb) ->
@@ -1161,25 +1176,25 @@ Lemma print_iter a0 rest size prev t tmp cols cols1 bb cv :
     nth_error (a0 :: rest) (inc - 1) = ilast its.
 Proof.
   intros Hg Hlen Hprev Hcv Hnu Hp.
-  pose proof (Forall_inv Hg) as Hg0. destruct (goodc_facts o a0 Hg0) as (Hs0 & _ & Hex0).
-  assert (Hsc : Forall scalar (a0 :: rest)) by (eapply Forall_impl; [|exact Hg]; intros a Ha; apply (goodc_facts o a Ha)).
-  assert (Hin : Forall inrv (a0 :: rest)) by (eapply Forall_impl; [|exact Hg]; intros a Ha; apply (goodc_facts o a Ha)).
+  pose proof (Forall_inv Hg) as Hg0. destruct (goodc_facts o zf zd a0 Hg0) as (Hs0 & _ & Hex0).
+  assert (Hsc : Forall scalar (a0 :: rest)) by (eapply Forall_impl; [|exact Hg]; intros a Ha; apply (goodc_facts o zf zd a Ha)).
+  assert (Hin : Forall (inrv zf zd) (a0 :: rest)) by (eapply Forall_impl; [|exact Hg]; intros a Ha; apply (goodc_facts o zf zd a Ha)).
   destruct cv as [|c kk|]; [| |congruence].
   - (* no conversion: one value *)
     unfold print_arg_val in Hp. rewrite (pav_scalar o a0 rest cols prev 5 Hs0) in Hp.
     destruct (print_scalar o a0 cols) as [[[t' w'] c']|] eqn:Eps; [|discriminate]. inversion Hp; subst.
-    destruct (goodc_tok dec2f dec2d o a0 cols t tmp cols1 Hg0 Eps) as (Htk & Hnd & Hw).
+    destruct (goodc_tok dec2f dec2d o zf zd a0 cols t tmp cols1 Hg0 Eps) as (Htk & Hnd & Hw).
     exists [IVal a0 t], 1%nat. split; [reflexivity|]. split; [exact Hw|].
     split; [destruct a0; cbn in Hs0; try contradiction; reflexivity|]. split; [cbn [length]; lia|].
     split; [reflexivity|]. split; [split; [reflexivity|split; assumption]|reflexivity].
-  - destruct (range_expand_shape o (a0 :: rest) size c kk Hsc Hin Hex0 Hlen Hcv) as (n & -> & Hn5 & Hexp & Hshape).
+  - destruct (range_expand_shape zf zd (proj1 Hz) (proj2 Hz) o (a0 :: rest) size c kk Hsc Hin Hex0 Hlen Hcv) as (n & -> & Hn5 & Hexp & Hshape).
     destruct Hn5 as [Hn5 Hnl].
     destruct Hshape as [[[y Ec] Hrep]|(k & d & x & y & Ec & Hdr & Hhd & Hd0 & Hexj)]; subst c; cbn [hd] in *.
     + (* N x value *)
       rewrite (print_range_const_eq (Z.of_nat n) a0 y cols prev ltac:(lia) Hs0) in Hp.
       destruct (print_scalar o a0 (cols + len (dec_nat (Z.of_nat n) ++ [120]))) as [[[t' w'] c']|] eqn:Eps;
         [|discriminate]. inversion Hp; subst.
-      destruct (goodc_tok dec2f dec2d o a0 _ t' w' cols1 Hg0 Eps) as (Htk & Hnd & Hw).
+      destruct (goodc_tok dec2f dec2d o zf zd a0 _ t' w' cols1 Hg0 Eps) as (Htk & Hnd & Hw).
       exists [IRep (Z.of_nat n) a0 t'], n. split; [reflexivity|].
       split; [rewrite !len_app; lia|]. split; [reflexivity|]. split; [lia|].
       split; [unfold iorig; cbn [map concat item_orig]; now rewrite app_nil_r, Nat2Z.id|].
@@ -1190,11 +1205,11 @@ Proof.
         induction m as [|m IH]; [reflexivity|exact IH].
     + (* a run with a step *)
       subst a0. rewrite expand_delta in Hexp by lia. rewrite Nat2Z.id in Hexp. inversion Hexp as [Hm]. clear Hexp.
-      assert (Hsx : small_k k x) by (apply (goodc_mk o); exact Hg0).
+      assert (Hsx : small_k k x) by (apply (goodc_mk o zf zd); exact Hg0).
       assert (Hex : forall j, (j < n)%nat -> wr k (x + Z.of_nat j * d) = x + Z.of_nat j * d)
         by (intros j Hj; apply wr_id; apply (Hexj j Hj)).
       assert (Hsm : forall j, (j < n)%nat -> small_k k (wr k (x + Z.of_nat j * d))).
-      { intros j Hj. rewrite Hex by assumption. apply (goodc_mk o). eapply Forall_forall; [exact Hg|].
+      { intros j Hj. rewrite Hex by assumption. apply (goodc_mk o zf zd). eapply Forall_forall; [exact Hg|].
         eapply nth_error_In. exact (proj1 (Hexj j Hj)). }
       set (last := x + (Z.of_nat n - 1) * d).
       assert (Hlast : wr k (x + (Z.of_nat n - 1) * d) = last).
@@ -1276,7 +1291,7 @@ Proof.
 Qed.
 
 Lemma print_loop_iseq : forall fuel args prev i n acc pend wrt cols awtl text w,
-  Forall (goodc o) args -> Z.of_nat (length args) < 2 ^ 31 -> n = i + Z.of_nat (length args) ->
+  Forall (goodc o zf zd) args -> Z.of_nat (length args) < 2 ^ 31 -> n = i + Z.of_nat (length args) ->
   (args = [] -> pend = false) -> (forall p, prev = Some p -> scalar p) ->
   print_vals_loop fuel o args prev i n acc pend wrt cols awtl = Some (text, w) ->
   exists its sfx, text = acc ++ sfx /\ w = wrt + len sfx - (if pend then 1 else 0) /\
@@ -1291,7 +1306,7 @@ Proof.
   - cbn [length] in Hn. replace (n <=? i) with false in Hrun by lia.
     destruct (convert_to_range o (a0 :: rest) (n - i)) as [|c kk|] eqn:Ecv; [| |discriminate].
     1: rewrite top_plain in Hrun
-         by (destruct (goodc_facts o a0 (Forall_inv Hg)) as (Hs0 & _); destruct a0; cbn in Hs0; try contradiction; cbn; lia).
+         by (destruct (goodc_facts o zf zd a0 (Forall_inv Hg)) as (Hs0 & _); destruct a0; cbn in Hs0; try contradiction; cbn; lia).
     2: destruct (conv_yes_head _ _ _ _ Ecv) as (n0 & h0 & r0 & Ec0); rewrite Ec0 in Hrun;
        rewrite top_plain in Hrun by (cbn; lia); rewrite <- Ec0 in Hrun.
     all: match type of Hrun with context [print_arg_val ?oo ?inp ?cc ?pp] =>
@@ -1321,7 +1336,7 @@ Proof.
     all: destruct Hil as (lst & Eil & pp & Hokl).
     all: assert (Hprev2 : forall p, ilast its1 = Some p -> scalar p)
            by (intros p Ep; rewrite Eil in Ep; inversion Ep; subst; exact (item_scalar_last _ _ _ _ Hokl)).
-    all: assert (Hg2 : Forall (goodc o) (skipn inc (a0 :: rest)))
+    all: assert (Hg2 : Forall (goodc o zf zd) (skipn inc (a0 :: rest)))
            by (rewrite <- (firstn_skipn inc (a0 :: rest)) in Hg; now apply Forall_app in Hg as [_ Hg]).
     all: destruct (i + Z.of_nat inc <? n) eqn:Ein;
          (apply IH in Hrun; [|exact Hg2|rewrite Hl2; cbn [length] in *; lia|rewrite Hl2; cbn [length] in *; lia
@@ -1366,8 +1381,8 @@ Proof.
 Qed.
 
 (* the round trip with range compression on: the scanned slots expand to the values *)
-Theorem roundtrip_compressed o vs text w :
-  compress o = true -> Forall (goodc o) vs -> Z.of_nat (length vs) < 2 ^ 31 ->
+Theorem roundtrip_compressed o zf zd vs text w :
+  zchoice zf zd -> compress o = true -> Forall (goodc o zf zd) vs -> Z.of_nat (length vs) < 2 ^ 31 ->
   print_arg_vals o vs 0 = Some (text, w) ->
   exists slots,
     w = len text /\
@@ -1375,8 +1390,8 @@ Theorem roundtrip_compressed o vs text w :
     scan_arg_vals dec2f dec2d text (Z.of_nat (length slots)) = Ok (slots, []) /\
     expand slots = Some vs.
 Proof.
-  intros Hon Hg Hlen Hp. unfold print_arg_vals in Hp.
-  apply (print_loop_iseq dec2f dec2d o Hon) in Hp; try assumption; try lia; try reflexivity; try discriminate.
+  intros Hz Hon Hg Hlen Hp. unfold print_arg_vals in Hp.
+  apply (print_loop_iseq dec2f dec2d o Hon zf zd Hz) in Hp; try assumption; try lia; try reflexivity; try discriminate.
   destruct Hp as (its & sfx & -> & -> & Hseq & Horig & Hnil). cbn [app].
   destruct its as [|it its].
   - cbn in Hseq. subst sfx. exists []. cbn in Horig. subst vs.
@@ -1395,8 +1410,9 @@ Proof.
 Qed.
 
 (* for every option record - compression on or off *)
-Theorem roundtrip_any (dec2f dec2d : list Z -> Z) o vs text w :
-  Forall (goodc o) vs -> Z.of_nat (length vs) < 2 ^ 31 ->
+Theorem roundtrip_any (dec2f dec2d : list Z -> Z) o zf zd vs text w :
+  zchoice zf zd ->
+  Forall (goodc o zf zd) vs -> Z.of_nat (length vs) < 2 ^ 31 ->
   print_arg_vals o vs 0 = Some (text, w) ->
   exists slots,
     w = len text /\
@@ -1404,19 +1420,19 @@ Theorem roundtrip_any (dec2f dec2d : list Z -> Z) o vs text w :
     scan_arg_vals dec2f dec2d text (Z.of_nat (length slots)) = Ok (slots, []) /\
     expand slots = Some vs.
 Proof.
-  intros Hg Hlen Hp. destruct (compress o) eqn:Ec.
-  - exact (roundtrip_compressed dec2f dec2d o vs text w Ec Hg Hlen Hp).
-  - assert (Htok : forall v cols t w c, goodc o v -> print_scalar o v cols = Some (t, w, c) ->
+  intros Hz Hg Hlen Hp. destruct (compress o) eqn:Ec.
+  - exact (roundtrip_compressed dec2f dec2d o zf zd vs text w Hz Ec Hg Hlen Hp).
+  - assert (Htok : forall v cols t w c, goodc o zf zd v -> print_scalar o v cols = Some (t, w, c) ->
                      tokof dec2f dec2d v t /\ w = len t).
-    { intros v cols t w0 c Hv Hps. destruct (goodc_tok dec2f dec2d o v cols t w0 c Hv Hps) as (A & _ & B). now split. }
-    destruct (print_arg_vals_lang dec2f dec2d o (goodc o) Htok (fun v Hv => proj1 (goodc_facts o v Hv)) Ec vs text w Hg Hp)
+    { intros v cols t w0 c Hv Hps. destruct (goodc_tok dec2f dec2d o zf zd v cols t w0 c Hv Hps) as (A & _ & B). now split. }
+    destruct (print_arg_vals_lang dec2f dec2d o (goodc o zf zd) Htok (fun v Hv => proj1 (goodc_facts o zf zd v Hv)) Ec vs text w Hg Hp)
       as [HL Hw].
     exists vs. split; [exact Hw|]. split; [now apply count_lang|]. split; [now apply scan_lang|]. apply expand_scalars.
-    eapply Forall_impl; [|exact Hg]. intros a Ha. apply (goodc_facts o a Ha).
+    eapply Forall_impl; [|exact Hg]. intros a Ha. apply (goodc_facts o zf zd a Ha).
 Qed.
 
 Lemma roundtrip_any_example : forall o,
-  Forall (goodc o) ([VT; VT; VT; VT; VT; VI 7] ++ map VI [1; 2; 3; 4; 5; 6] ++ map VH [10; 20; 30; 40; 50]) /\
+  Forall (goodv o) ([VT; VT; VT; VT; VT; VI 7] ++ map VI [1; 2; 3; 4; 5; 6] ++ map VH [10; 20; 30; 40; 50]) /\
   exists text w, print_arg_vals {| lossless := true; prec := 2; linelength := 20; compress := true |}
     ([VT; VT; VT; VT; VT; VI 7] ++ map VI [1; 2; 3; 4; 5; 6] ++ map VH [10; 20; 30; 40; 50]) 0 = Some (text, w).
 Proof.
@@ -1430,14 +1446,16 @@ Definition ex_fl_opts : popts := {| lossless := true; prec := 2; linelength := 3
 Definition ex_fl_list : list av :=
   repeat (VFl 1069547520) 6 ++ [VD 4591870180066957722; VFl 1; VI 3].
 Lemma float_list_example :
-  Forall (goodc ex_fl_opts) ex_fl_list /\
+  Forall (goodv ex_fl_opts) ex_fl_list /\ nozmix ex_fl_list /\
   exists text w, print_arg_vals ex_fl_opts ex_fl_list 0 = Some (text, w).
 Proof.
-  split.
+  split; [|split].
   - unfold ex_fl_list. cbn [repeat app].
     repeat (constructor; [first [left; cbn; unfold small_k, good_k; lia
-                                |right; split; [reflexivity|]; cbn [goodfl]; split; [lia|]; split; [reflexivity|lia]]|]).
+                                |right; split; [reflexivity|]; cbn [goodfin]; split; [lia|reflexivity]]|]).
     constructor.
+  - split; left; unfold ex_fl_list; cbn [repeat app In]; intros H;
+      repeat (destruct H as [H|H]; [discriminate H|]); exact H.
   - eexists _, _. vm_compute. reflexivity.
 Qed.
 
@@ -1446,8 +1464,8 @@ Qed.
 Section MsgAny.
 Variables dec2f dec2d : list Z -> Z.
 
-Theorem message_roundtrip_compressed o addr vs text w :
-  compress o = true -> good_addr addr -> Forall (goodc o) vs -> Z.of_nat (length vs) < 2 ^ 31 ->
+Theorem message_roundtrip_compressed o zf zd addr vs text w :
+  zchoice zf zd -> compress o = true -> good_addr addr -> Forall (goodc o zf zd) vs -> Z.of_nat (length vs) < 2 ^ 31 ->
   print_message o addr vs 0 = Some (text, w) ->
   exists slots,
     w = len text /\
@@ -1455,7 +1473,7 @@ Theorem message_roundtrip_compressed o addr vs text w :
     scan_message dec2f dec2d text (Z.of_nat (length slots)) = Ok (addr, slots, []) /\
     expand slots = Some vs.
 Proof.
-  intros Hon [[ar Ea] Hns] Hg Hlen Hp. unfold print_message in Hp.
+  intros Hz Hon [[ar Ea] Hns] Hg Hlen Hp. unfold print_message in Hp.
   destruct (print_vals_loop (S (length vs)) o vs None 0 (Z.of_nat (length vs)) addr true 0
               (0 + (len addr + 1)) (if 0 + (len addr + 1) =? 0 then 0 else 1)) as [[t w']|] eqn:El;
     [|discriminate].
@@ -1472,11 +1490,11 @@ Proof.
     unfold count_printed_arg_vals_of_msg, scan_message.
     rewrite !Hnw, !Hsk, !Hhd. cbn [Z.eqb Pos.eqb negb]. rewrite Hd, Ht.
     repeat split; reflexivity.
-  - apply (print_loop_iseq dec2f dec2d o Hon) in El; try assumption; try lia; try discriminate.
+  - apply (print_loop_iseq dec2f dec2d o Hon zf zd Hz) in El; try assumption; try lia; try discriminate.
     destruct El as (its & sfx & -> & -> & Hseq & Horig & _).
     assert (Hne : its <> []) by (intros ->; cbn in Horig; discriminate).
     destruct (iseq_from_iseq dec2f dec2d _ _ _ _ Hseq Hne) as (sepz & T & -> & HL & Hsep).
-    assert (Hz : (Z.of_nat (length (v :: vs')) =? 0) = false) by (apply Z.eqb_neq; cbn [length]; lia). rewrite !Hz.
+    assert (Hz0 : (Z.of_nat (length (v :: vs')) =? 0) = false) by (apply Z.eqb_neq; cbn [length]; lia). rewrite !Hz0.
     destruct its as [|it its']; [congruence|].
     destruct (iseq_first dec2f dec2d _ _ _ _ HL) as (c & r & -> & Hc).
     assert (Hsp : sepz ++ c :: r = [] \/ isspace (hd0 (sepz ++ c :: r)) = true).
@@ -1500,8 +1518,9 @@ Proof.
     + rewrite <- Horig. exact (expand_items dec2f dec2d _ _ _ HL).
 Qed.
 
-Theorem message_roundtrip_any o addr vs text w :
-  good_addr addr -> Forall (goodc o) vs -> Z.of_nat (length vs) < 2 ^ 31 ->
+Theorem message_roundtrip_any o zf zd addr vs text w :
+  zchoice zf zd ->
+  good_addr addr -> Forall (goodc o zf zd) vs -> Z.of_nat (length vs) < 2 ^ 31 ->
   print_message o addr vs 0 = Some (text, w) ->
   exists slots,
     w = len text /\
@@ -1509,14 +1528,57 @@ Theorem message_roundtrip_any o addr vs text w :
     scan_message dec2f dec2d text (Z.of_nat (length slots)) = Ok (addr, slots, []) /\
     expand slots = Some vs.
 Proof.
-  intros Ha Hg Hlen Hp. destruct (compress o) eqn:Ec.
-  - exact (message_roundtrip_compressed o addr vs text w Ec Ha Hg Hlen Hp).
-  - assert (Htok : forall v cols t w c, goodc o v -> print_scalar o v cols = Some (t, w, c) ->
+  intros Hz Ha Hg Hlen Hp. destruct (compress o) eqn:Ec.
+  - exact (message_roundtrip_compressed o zf zd addr vs text w Hz Ec Ha Hg Hlen Hp).
+  - assert (Htok : forall v cols t w c, goodc o zf zd v -> print_scalar o v cols = Some (t, w, c) ->
                      tokof dec2f dec2d v t /\ w = len t).
-    { intros v cols t w0 c Hv Hps. destruct (goodc_tok dec2f dec2d o v cols t w0 c Hv Hps) as (A & _ & B). now split. }
-    destruct (message_roundtrip_gen dec2f dec2d o (goodc o) Htok (fun v Hv => proj1 (goodc_facts o v Hv))
+    { intros v cols t w0 c Hv Hps. destruct (goodc_tok dec2f dec2d o zf zd v cols t w0 c Hv Hps) as (A & _ & B). now split. }
+    destruct (message_roundtrip_gen dec2f dec2d o (goodc o zf zd) Htok (fun v Hv => proj1 (goodc_facts o zf zd v Hv))
                 addr vs text w Ec Ha Hg Hp) as (Hw & Hc & Hs).
     exists vs. repeat split; try assumption. apply expand_scalars.
-    eapply Forall_impl; [|exact Hg]. intros a Hx. apply (goodc_facts o a Hx).
+    eapply Forall_impl; [|exact Hg]. intros a Hx. apply (goodc_facts o zf zd a Hx).
 Qed.
 End MsgAny.
+
+(* ------------------------------------------------------------------------- *)
+(* the side condition in the form the classifier of the check uses it:        *)
+(* +0.0 and -0.0 of one type do not both occur (signed-zero-run)              *)
+Lemma zero_choice o vs : Forall (goodv o) vs -> nozmix vs ->
+  exists zf zd, zchoice zf zd /\ Forall (goodc o zf zd) vs.
+Proof.
+  intros Hg [Hf Hd].
+  assert (Ef : exists zf, (zf = 0 \/ zf = 2 ^ 31) /\ ~ In (VFl zf) vs) by (destruct Hf; eauto).
+  assert (Ed : exists zd, (zd = 0 \/ zd = 2 ^ 63) /\ ~ In (VD zd) vs) by (destruct Hd; eauto).
+  destruct Ef as (zf & Hzf & Hnf). destruct Ed as (zd & Hzd & Hnd).
+  exists zf, zd. split; [split; assumption|].
+  apply Forall_forall. intros v Hin. pose proof (proj1 (Forall_forall _ _) Hg v Hin) as [H0|[Hl Hv]]; [now left|].
+  right. split; [exact Hl|]. destruct v; cbn [goodfin] in Hv; try contradiction; cbn [goodfl]; destruct Hv as [Hb Hfin].
+  - split; [exact Hb|]. split; [exact Hfin|]. intros ->. contradiction.
+  - split; [exact Hb|]. split; [exact Hfin|]. intros ->. contradiction.
+Qed.
+
+Theorem roundtrip_any_nz (dec2f dec2d : list Z -> Z) o vs text w :
+  Forall (goodv o) vs -> nozmix vs -> Z.of_nat (length vs) < 2 ^ 31 ->
+  print_arg_vals o vs 0 = Some (text, w) ->
+  exists slots,
+    w = len text /\
+    count_printed_arg_vals dec2f dec2d text = Ok (true, Z.of_nat (length slots)) /\
+    scan_arg_vals dec2f dec2d text (Z.of_nat (length slots)) = Ok (slots, []) /\
+    expand slots = Some vs.
+Proof.
+  intros Hg Hnz. destruct (zero_choice o vs Hg Hnz) as (zf & zd & Hz & Hg').
+  exact (roundtrip_any dec2f dec2d o zf zd vs text w Hz Hg').
+Qed.
+
+Theorem message_roundtrip_any_nz (dec2f dec2d : list Z -> Z) o addr vs text w :
+  good_addr addr -> Forall (goodv o) vs -> nozmix vs -> Z.of_nat (length vs) < 2 ^ 31 ->
+  print_message o addr vs 0 = Some (text, w) ->
+  exists slots,
+    w = len text /\
+    count_printed_arg_vals_of_msg dec2f dec2d text = Ok (true, Z.of_nat (length slots)) /\
+    scan_message dec2f dec2d text (Z.of_nat (length slots)) = Ok (addr, slots, []) /\
+    expand slots = Some vs.
+Proof.
+  intros Ha Hg Hnz. destruct (zero_choice o vs Hg Hnz) as (zf & zd & Hz & Hg').
+  exact (message_roundtrip_any dec2f dec2d o zf zd addr vs text w Hz Ha Hg').
+Qed.
